@@ -127,11 +127,22 @@ CONFIG["C09"] = {
 }
 
 CONFIG["C02"] = {
-    "level": "exploration", "proof": False, "rtc": True,
-    "explanation": "Bounded run-time contract: real FullGrid matrices compared entrywise with kron(I,O_prop) + c_prop*kron(P_prop,I) built "
-                   "from the real sub-grid getters (c = 1, f^2, f), symmetry, empty diagonal, one stored pattern and entry order, positive "
-                   "entries, 6D volumes in grid order; both position modes, factors 0.5/2/3.",
-    "assumptions": ["the position-grid and rotation-grid matrices themselves are the subject of C03-C06"],
+    "level": "other", "proof": True, "rtc": True, "proof_timeout": 3000,
+    "explanation": "Proved (symbolic n_b >= 1, n_o, n_t >= 1, f > 0, modulo the contracts of the sub-grid matrices): "
+                   "FullGrid._get_N_N for adjacency / borders / distances returns, for every pair of cells (a,b), "
+                   "[same position] O_prop(a mod n_b, b mod n_b) + [same rotation] c_prop P_prop(a div n_b, b div n_b) with c = 1, f^2, f "
+                   "(four exhaustive cases incl. 'no entry' for all other pairs), hence symmetric with empty diagonal; the stored "
+                   "positions of the same-rotation triplets are pairwise distinct; the single-position path returns the rotation "
+                   "matrix alone; FullGrid.get_total_volumes[i n_b + j] = posvol_i f^3 rotvol_j. The triple filter-append loop is "
+                   "summarised by the engine (flatten + filter + fill), the block placement by the bmat contract. Bounded: the real "
+                   "matrices entrywise against kron(I,O)+c kron(P,I) from the real sub-grid getters, one stored pattern and entry "
+                   "order, strictly positive entries, getter purity incl. get_full_prefactors, both position modes, factors 0.5/2/3.",
+    "trusted_base": [NUMPY, SCIPY_SPARSE + "; bmat, coo from triplets (dense view of a duplicate-free triplet list through a lookup ghost "
+                     "whose correctness is an obligation)", "engine loop summaries S1-S3 (pyvc/summaries.py) and the filter contract",
+                     "ASSUMED callee contracts: position matrices (C05 proved for spherical mode / C06 bounded for Cartesian) and rotation "
+                     "matrices (C04, bounded) are symmetric with empty diagonal and non-negative"],
+    "assumptions": ["'one stored pattern and entry order' and 'strictly positive finite entries' are bounded only (they depend on explicit "
+                    "zeros of the sub-grid matrices, see the C02/C06/C14 known finding for open Cartesian cells)"],
 }
 CONFIG["C05"] = {
     "level": "other", "proof": True, "rtc": True, "proof_timeout": 3000,
